@@ -423,6 +423,11 @@ fn hostile_enum(out: &mut Out) {
         ("too_many_protocols", cat(&[&hdr, &frame(&many)]), "error"),
         ("zero_len_frame", cat(&[&hdr, &frame(b"")]), "error"),
         ("wrong_header", frame(b"/multistream/2.0.0\n"), "error"),
+        // length prefixes that are not minimal / not terminated within two bytes (the stream is read again afterwards)
+        ("nonminimal_len_first", vec![0x80, 0x00, b'/', b'a', b'\n'], "error"),
+        ("nonminimal_len_after_header", cat(&[&hdr, &[0x80, 0x00, b'/', b'a', b'\n']]), "error"),
+        ("nonminimal_len2_after_header", cat(&[&hdr, &[0x83, 0x00, b'/', b'a', b'\n']]), "error"),
+        ("three_byte_zero_len", cat(&[&hdr, &[0x80, 0x80, 0x00, b'/', b'a', b'\n']]), "error"),
         ("truncated_len", vec![0x85], "any"),
         ("truncated_body", vec![0x13, b'/', b'm'], "any"),
         ("nothing", vec![], "failed"),
